@@ -21,6 +21,12 @@ RULE = ("for each of 15 request shapes over the 10 commands in v5 (sign legacy/s
         "fault-free run; exact code for firmware errors whose cause the docs name, at the steps "
         "whose firmware source can raise them; no shutdown for status words in 0x69A0..0x6BFF or "
         "0x6D00. distinct = (shape, step index, outcome) cells; every cell is non-trivial")
+RULE_ADDED = (
+              'Also: shapes where the device reports total / partial success before the last '
+              'announced block, and uiHeartbeat shapes that end in the bootloader or stay in the '
+              'heartbeat app (baseline -905); 16 success answers per signing / heartbeat shape with '
+              'signatures of 8..72 bytes; a fifth of the cells with the --iodebug option on ')
+RULE = RULE + " " + RULE_ADDED.strip()
 ASSUMPTIONS = [
     "simulated device + fake HID transport trusted; injected status words carry no data "
     "(as a firmware THROW leaves tx=0), 0x61xx/0x6Cxx keep the genuine data",
@@ -66,13 +72,13 @@ def in_range(sw):
     return 0x69A0 <= sw <= 0x6BFF or sw == 0x6D00
 
 
-def run_cell(shape, plan, prep=None):
+def run_cell(shape, plan, prep=None, iodebug=False):
     """fresh stack, bring-up, arm the plan, run the request"""
     from ..stack import Stack
     dev = fl.make_device(shape)
     if prep:
         prep(dev)
-    with Stack(dev, version_one=shape.v1) as s:
+    with Stack(dev, version_one=shape.v1, iodebug=iodebug) as s:
         s.initialize()
         if shape.post:
             shape.post(dev)
@@ -161,7 +167,11 @@ def run_shard(spec, acc):
 
 
 def check_cell(acc, shape, v1, k, role, fault, allowed, base_reply, named, by_src, fw_all):
-    reply, exc, apdus, dev, out = run_cell(shape, {k: fault})
+    # one cell in five with the manager's low-level I/O debugging option on
+    iodebug = (k + (fault.sw or 0) + len(fault.kind)) % 5 == 0
+    if iodebug:
+        acc.count("cells_with_iodebug_on")
+    reply, exc, apdus, dev, out = run_cell(shape, {k: fault}, iodebug=iodebug)
     acc.evaluations += 1
     acc.distinct_disjoint += 1
     case = {"shape": shape.name, "v1": v1, "k": k, "role": role,
